@@ -92,6 +92,13 @@ async def ip_history(ctx, history: str, key) -> None:
             mon.register_genuine(keyb, fr[2:], idx)
         return frames
 
+    import zlib
+
+    if zlib.crc32(repr((history, key)).encode()) % 3 == 0:
+        # a connection that lets several requests be in flight at once (constructor parameter concurrency_limit): every one
+        # of them is sealed under its own counter value
+        w.connection._concurrency_limit = asyncio.Semaphore(3)
+        ctx.count("ip_histories_with_several_requests_in_flight")
     try:
         await asyncio.wait_for(w.connection.ensure_connection(), 30)
         await vloop.settle()
